@@ -36,6 +36,7 @@ var depths = map[string][4]int{
 	"canceled": {2, 3, 1, 1},
 	"v2":       {2, 3, 1, 1},
 	"v2active": {2, 3, 1, 1},
+	"returned": {2, 3, 1, 1},
 }
 
 // artefact of a violation / replay
